@@ -196,10 +196,17 @@ impl<CS: CLCiphersuite> PoKSignature<CL03<CS>> {
                         return false;
                     }
 
-                    let boolean_rproofs_mi = CLSPoK
+                    // the range proof must be about the commitment whose opening was just proved
+                    let rproof_mi = CLSPoK
                         .range_proofs_commited_mi
                         .get(idx)
-                        .expect("index overflow")
+                        .expect("index overflow");
+                    if rproof_mi.E != cmi.value {
+                        println!("Range proof on mi made for another commitment!");
+                        return false;
+                    }
+
+                    let boolean_rproofs_mi = rproof_mi
                         .verify::<CS::HashAlg>(
                             &gi,
                             &commitment_pk.h,
@@ -435,6 +442,11 @@ impl<CS: CLCiphersuite> ZKPoK<CL03<CS>> {
                 return false;
             }
             let rproof_mi = zkpok.range_proofs_mi.get(idx).expect("index overflow");
+            // the range proof must be about the commitment whose opening was just proved
+            if rproof_mi.E != proof_mi.commitment.value {
+                println!("Range Proof of m{} made for another commitment!", i);
+                return false;
+            }
             let boolean_rproof_mi =
                 rproof_mi.verify::<CS::HashAlg>(&ai, &signer_pk.b, &signer_pk.N, &min_x, &max_x);
             if !boolean_rproof_mi {
@@ -453,6 +465,11 @@ impl<CS: CLCiphersuite> ZKPoK<CL03<CS>> {
         );
         if !boolean_proof_r {
             println!("Verification of the Proof of Knowledge of r. Failed!");
+            return false;
+        }
+
+        if zkpok.range_proof_r.E != zkpok.proof_r.commitment.value {
+            println!("Range Proof of r made for another commitment!");
             return false;
         }
 
